@@ -76,15 +76,17 @@ func c15(c *Ctx) {
 			keptMu.Unlock()
 		}
 		sess, err := newSession(nil, func(cn *client.Conn) {
-			if !lone {
-				cn.HandleFunc("PRIVMSG", keeper)
-				cn.HandleBG("PRIVMSG", client.HandlerFunc(keeper))
-			}
-			for i := 0; i < nfg; i++ {
-				cn.HandleFunc("PRIVMSG", handler)
-			}
-			for i := 0; i < nbg; i++ {
-				cn.HandleBG("privmsg", client.HandlerFunc(handler))
+			for _, ev := range []string{"PRIVMSG", "CTCP", "ACTION"} { // a \x01-wrapped PRIVMSG is delivered as CTCP
+				if !lone {
+					cn.HandleFunc(ev, keeper)
+					cn.HandleBG(ev, client.HandlerFunc(keeper))
+				}
+				for i := 0; i < nfg; i++ {
+					cn.HandleFunc(ev, handler)
+				}
+				for i := 0; i < nbg; i++ {
+					cn.HandleBG(strings.ToLower(ev), client.HandlerFunc(handler))
+				}
 			}
 		})
 		if err != nil {
@@ -106,10 +108,22 @@ func c15(c *Ctx) {
 			}
 			sb.WriteString(fmt.Sprintf(":n%d!u@h PRIVMSG", i))
 			na := c.R.N(15)
+			if c.R.P(1, 4) {
+				na = 14 // the most the grammar allows in front of a trailing parameter
+			}
+			ctcpMiddle := na >= 2 && c.R.P(1, 4) // the parser looks for the CTCP wrapper in the SECOND parameter, wherever the line ends
 			for a := 0; a < na; a++ {
+				if a == 1 && ctcpMiddle {
+					sb.WriteString(" \x01" + c.R.Pick("VERSION", "PING", "ACTION") + "\x01")
+					continue
+				}
 				sb.WriteString(fmt.Sprintf(" a%d", a))
 			}
-			sb.WriteString(fmt.Sprintf(" :text %d", i))
+			if c.R.P(1, 5) { // a CTCP: the parser prepends the CTCP verb, so 15 wire parameters become 16 arguments
+				sb.WriteString(fmt.Sprintf(" :\x01%s text %d\x01", c.R.Pick("VERSION", "PING", "USERINFO"), i))
+			} else {
+				sb.WriteString(fmt.Sprintf(" :text %d", i))
+			}
 			raws = append(raws, sb.String())
 			sess.srv.SendLine(sb.String())
 		}
